@@ -14,6 +14,7 @@ import (
 	"time"
 
 	"github.com/openconfig/gribigo/client"
+	"github.com/openconfig/gribigo/fluent"
 	"google.golang.org/grpc/codes"
 	"google.golang.org/grpc/status"
 
@@ -75,6 +76,16 @@ func catalogue() []fault {
 		}
 		for _, c := range faultCodes {
 			out = append(out, fault{"recv-unused", 0, c, 0, after})
+		}
+		// the client as the fluent wrapper (and with it the compliance suite) drives it: the
+		// stream fails on the receive side, the test awaits, then Stop() - which must tear the
+		// session down like Close does
+		if after == "close" {
+			for at := 0; at <= 3; at++ {
+				for _, c := range []codes.Code{codes.Unavailable, codes.FailedPrecondition, codes.Canceled} {
+					out = append(out, fault{"fluent-stop", at, c, 1, after})
+				}
+			}
 		}
 		// the same over the real gRPC stack: the handler ends the RPC with a status, or the
 		// client's transport is cut under the RPC, after 0..4 answers
@@ -160,6 +171,10 @@ type stepper struct {
 func runCase(col sink, st *stepper, caseID string, f fault, rep int) {
 	if strings.HasPrefix(f.side, "grpc-") {
 		runGRPCCase(col, st, caseID, f, rep)
+		return
+	}
+	if f.side == "fluent-stop" {
+		runFluentCase(col, st, caseID, f, rep)
 		return
 	}
 	problem := func(sig, txt string) {
@@ -552,4 +567,69 @@ func blockFns(desc string) string {
 	}
 	sort.Strings(out)
 	return strings.Join(out, ",")
+}
+
+// runFluentCase: the receive-side fault through the fluent wrapper, ended by Stop().
+func runFluentCase(col sink, st *stepper, caseID string, f fault, rep int) {
+	problem := func(sig, txt string) {
+		col.Violation(caseID, sig, txt, map[string]any{"fault": f.String()})
+	}
+	fake := &drv.FakeGRIBI{}
+	ferr := status.Error(f.code, "injected stream failure")
+	fake.NewStream = func(s *drv.FakeStream) {
+		get := autoAnswer(s, f.at)
+		inner := s.OnSend
+		failed := false
+		s.OnSend = func(n int, m *spb.ModifyRequest) {
+			inner(n, m)
+			if get() >= f.at && !failed {
+				failed = true
+				s.Fail(ferr)
+			}
+		}
+		if f.at == 0 {
+			s.Fail(ferr)
+		}
+	}
+	tb := &mon.TB{}
+	var awaitErr error
+	st.current = "fluent Start/StartSending/Await/Stop"
+	fatal := tb.Run(func(t testing.TB) {
+		c := fluent.NewClient()
+		c.Connection().WithStub(fake).WithRedundancyMode(fluent.ElectedPrimaryClient).WithInitialElectionID(1, 0).WithPersistence()
+		ctx, cancel := context.WithCancel(context.Background())
+		defer cancel()
+		c.Start(ctx, t)
+		c.StartSending(ctx, t)
+		c.Modify().AddEntry(t, fluent.NextHopEntry().WithNetworkInstance("DEFAULT").WithIndex(1).WithIPAddress("192.0.2.1"))
+		c.Modify().AddEntry(t, fluent.NextHopEntry().WithNetworkInstance("DEFAULT").WithIndex(2).WithIPAddress("192.0.2.1"))
+		wctx, wcancel := context.WithTimeout(ctx, 20*time.Second)
+		awaitErr = c.Await(wctx, t)
+		wcancel()
+		if rep%2 == 1 {
+			time.Sleep(time.Duration(rep*100) * time.Microsecond)
+		}
+		c.Stop(t)
+	})
+	if fatal {
+		problem("fluent-client-fatal", fmt.Sprint(tb.Fatals))
+		return
+	}
+	if awaitErr == nil {
+		problem("converged-despite-stream-failure", "fluent Await returned nil although the stream failed with "+f.code.String())
+	}
+	st.current = "goroutine census"
+	var left []string
+	for k := 0; k < 2000; k++ {
+		left = clientGoroutines()
+		if len(left) == 0 {
+			break
+		}
+		time.Sleep(500 * time.Microsecond)
+	}
+	if len(left) > 0 {
+		problem("client-goroutine-leak:after-fluent-stop", fmt.Sprintf("%d goroutine(s) of the client package survive the fluent client's Stop(): %v", len(left), left))
+	}
+	col.Count("goroutine_censuses", 1)
+	col.Count("cases_through_the_fluent_wrapper", 1)
 }
